@@ -1134,6 +1134,40 @@ def rule_terminate(crate, prop, tier):
                     L = mk_len(c, an) if c[3] is not None else None
             o.check(good, who, "progress", "an iteration of the loop can continue without marking a previously unmarked "
                     "vertex (the search may not terminate on a cyclic predecessor vector)", an.blocks[lb]["tspan"])
+    # every vertex the walk stands on is put to the predicate before the walk can end there: the only way out of the loop that
+    # is not behind the in-loop predicate call is the link lookup itself (`pred.get(s)` is None / s is not below pred.len())
+    FN_CALLS = ("core::ops::function::Fn::call", "core::ops::function::FnMut::call_mut")
+    mark_regions = {region_of_container(store_elem(ev)[0]) for ev in marks} - {None}
+    for h, body in an.cfg.loops.items():
+        pcalls = [ev for ev in an.events if ev["k"] == "call" and ev["key"] in FN_CALLS and ev["b"] in body]
+        if not pcalls:
+            o.undecide(who, "predicate-decides-every-visited-vertex", "the loop of search_by does not call the target predicate")
+            continue
+        for b in sorted(body):
+            if any(an.cfg.dominates(p["b"], b) for p in pcalls) or all(tg in body for tg, _ in an.cfg.succ[b]):
+                continue
+            sws = [ev for ev in an.events if ev["k"] == "switch" and ev["b"] == b]
+            dsc = sws[-1]["discr"] if sws else None
+            if dsc is None:
+                o.undecide(who, "predicate-decides-every-visited-vertex", "an exit of the walk ahead of the predicate is not a branch",
+                           an.blocks[b]["tspan"])
+                continue
+
+            def has(t, pred_):
+                return bool(t) and (pred_(t) or any(has(x, pred_) for x in t if isinstance(x, tuple)))
+            lookup = has(dsc, lambda t: (t[0] == "call" and t[1] in ("slice::get", "core::ops::index::Index::index")) or
+                         (t[0] == "len" and len(t) == 2 and isinstance(t[1], tuple) and len(t[1]) > 1 and t[1][1] == "A1.pred"))
+            content = has(dsc, lambda t: t[0] == "mem" and len(t) > 1 and t[1] == "A1.pred#buf")
+            if lookup and not content:
+                o.check(True, who, "predicate-decides-every-visited-vertex", "")
+            elif has(dsc, lambda t: t[0] == "mem" and len(t) > 1 and t[1] in mark_regions | {r + "#buf" for r in mark_regions}):
+                o.undecide(who, "predicate-decides-every-visited-vertex", "the walk tests its visited marks ahead of the predicate",
+                           an.blocks[b]["tspan"])
+            else:
+                o.check(False, who, "predicate-decides-every-visited-vertex", "the walk can end at a vertex without putting it to the "
+                        "target predicate: an exit of the loop ahead of the predicate call depends on something other than the link "
+                        "lookup `pred.get(s)` (a chain that ends at a self-referential or otherwise special entry is cut short "
+                        "before its last vertex is tested)", an.blocks[b]["tspan"])
     # apart from reading pred[s] for the start vertex (out-of-range start is a documented panic), the walk cannot panic
     from .panics import panic_sites, discharge_panic
     for st in panic_sites(an):
